@@ -757,6 +757,9 @@ package mast
 
 //@ func (*Cursor).Min
 //@ tags C01 C10 C12
+// only the cursor's own path array (or a fresh one) is written: a copy of the path taken before survives
+//@ ensures others [C12] (forall ((a Int) (i Int)) (! (=> (and (<= a W0) (not (= a (sl.arr (Cursor.path H0 c))))) (= (Arr.S_pathEntry.at H a i) (Arr.S_pathEntry.at H0 a i))) :pattern ((Arr.S_pathEntry.at H a i))))
+//@ loop 1 invariant others [C12] (and (or (= (sl.arr (Cursor.path H c)) (sl.arr (Cursor.path H0 c))) (> (sl.arr (Cursor.path H c)) W0)) (forall ((a Int) (i Int)) (! (=> (and (<= a W0) (not (= a (sl.arr (Cursor.path H0 c))))) (= (Arr.S_pathEntry.at H a i) (Arr.S_pathEntry.at H0 a i))) :pattern ((Arr.S_pathEntry.at H a i)))))
 //@ modifies W G.loads Cursor.path Arr.S_pathEntry Arr.Any@fresh Node.*@fresh mastNode.*@fresh Box.Bytes@fresh
 //@ requires ok [C10] (CursorOK H c)
 //@ requires closure [T3] (AllOK H)
@@ -767,6 +770,9 @@ package mast
 
 //@ func (*Cursor).Max
 //@ tags C01 C10 C12
+// only the cursor's own path array (or a fresh one) is written: a copy of the path taken before survives
+//@ ensures others [C12] (forall ((a Int) (i Int)) (! (=> (and (<= a W0) (not (= a (sl.arr (Cursor.path H0 c))))) (= (Arr.S_pathEntry.at H a i) (Arr.S_pathEntry.at H0 a i))) :pattern ((Arr.S_pathEntry.at H a i))))
+//@ loop 1 invariant others [C12] (and (or (= (sl.arr (Cursor.path H c)) (sl.arr (Cursor.path H0 c))) (> (sl.arr (Cursor.path H c)) W0)) (forall ((a Int) (i Int)) (! (=> (and (<= a W0) (not (= a (sl.arr (Cursor.path H0 c))))) (= (Arr.S_pathEntry.at H a i) (Arr.S_pathEntry.at H0 a i))) :pattern ((Arr.S_pathEntry.at H a i)))))
 //@ modifies W G.loads Cursor.path Arr.S_pathEntry Arr.Any@fresh Node.*@fresh mastNode.*@fresh Box.Bytes@fresh
 //@ requires ok [C10] (CursorOK H c)
 //@ requires closure [T3] (AllOK H)
@@ -777,6 +783,8 @@ package mast
 
 //@ func (*Cursor).Forward
 //@ tags C01 C10 C12
+// a step that fails leaves the cursor where it was (same path entries): retrying it continues the walk
+//@ ensures atomic [C12] (=> (isErr err) (CursorSame H0 H c))
 //@ modifies W G.loads Cursor.path Arr.S_pathEntry Arr.Any@fresh Node.*@fresh mastNode.*@fresh Box.Bytes@fresh
 //@ requires ok [C10] (CursorOK H c)
 //@ requires closure [T3] (AllOK H)
@@ -786,6 +794,8 @@ package mast
 
 //@ func (*Cursor).Backward
 //@ tags C01 C10 C12
+// a step that fails leaves the cursor where it was (same path entries): retrying it continues the walk
+//@ ensures atomic [C12] (=> (isErr err) (CursorSame H0 H c))
 //@ modifies W G.loads Cursor.path Arr.S_pathEntry Arr.Any@fresh Node.*@fresh mastNode.*@fresh Box.Bytes@fresh
 //@ requires ok [C10] (CursorOK H c)
 //@ requires closure [T3] (AllOK H)
